@@ -1174,8 +1174,8 @@ def run(ctx):
         run_now(ctx, rng)
         years = list(range(255))
         core.run_shards(ctx, "harness.c20", "shard_years", [years[i::32] for i in range(32)])
-        specs = [("evalday", i, 120) for i in range(16)] + [("evalbad", i, 250) for i in range(8)] + \
-                [("run", i, 150) for i in range(16)] + [("runbad", i, 200) for i in range(4)]
+        specs = [("evalday", i, 150) for i in range(32)] + [("evalbad", i, 400) for i in range(8)] + \
+                [("run", i, 200) for i in range(32)] + [("runbad", i, 300) for i in range(8)]
         core.run_shards(ctx, "harness.c20", "shard_eval", specs)
         ctx.exhaustive = True
         ctx.extra["exhaustive_years"] = "1900..2154 x every pattern class"
